@@ -19,6 +19,7 @@ import (
 	"go/token"
 	"go/types"
 	"math"
+	"strings"
 
 	"golang.org/x/tools/go/ssa"
 )
@@ -47,6 +48,7 @@ type scenario struct {
 	Acc  *types.Var
 	Acc2 *types.Var // second getter for order scenarios on one element
 	Fields   bool   // subject parameter is the []string of '/'-separated fields of the offending ID
+	Consts   string // constant bool arguments of this activation: "2=false,3=true"
 	NonEmpty int    // 1 + index of a list parameter assumed non-empty (0 = none)
 	NonEmptyFn *ssa.Function // the list returned (result 0) by this function is non-empty on success
 }
@@ -264,7 +266,7 @@ func (c *simCtx) constUnder(v ssa.Value) (float64, bool) {
 	if k, ok := constFloat(v); ok {
 		return k, true
 	}
-	if p, ok := v.(*ssa.Phi); ok && len(c.boolParams) > 0 && !c.phiBusy[p] {
+	if p, ok := v.(*ssa.Phi); ok && (len(c.boolParams) > 0 || c.sc.Consts != "") && !c.phiBusy[p] {
 		if c.phiBusy == nil {
 			c.phiBusy = map[*ssa.Phi]bool{}
 		}
@@ -375,6 +377,15 @@ func (c *simCtx) oracle(cond ssa.Value) (bool, bool) {
 	if p, ok := cond.(*ssa.Parameter); ok {
 		if v, known := c.boolParams[p]; known {
 			return v, true
+		}
+		if c.sc.Consts != "" {
+			pi := paramIndex(c.f, p)
+			if strings.Contains(","+c.sc.Consts, fmt.Sprintf(",%d=true,", pi)) {
+				return true, true
+			}
+			if strings.Contains(","+c.sc.Consts, fmt.Sprintf(",%d=false,", pi)) {
+				return false, true
+			}
 		}
 	}
 	switch x := cond.(type) {
@@ -676,6 +687,14 @@ func (c *simCtx) errValueFails(ev ssa.Value) (bool, bool) {
 // mapScenario: translate the scenario to the callee's parameters.
 func (c *simCtx) mapScenario(call *ssa.Call, g *ssa.Function) (scenario, bool) {
 	out, ok := c.mapScenario0(call, g)
+	if ok {
+		out.Consts = ""
+		for i, a := range call.Call.Args {
+			if k, isK := resolve(a).(*ssa.Const); isK && k.Value != nil && (k.Value.String() == "true" || k.Value.String() == "false") {
+				out.Consts += fmt.Sprintf("%d=%s,", i, k.Value.String())
+			}
+		}
+	}
 	if ok && c.sc.NonEmptyFn != nil {
 		for i, a := range call.Call.Args {
 			if ex, isEx := resolve(a).(*ssa.Extract); isEx && ex.Index == 0 {
